@@ -517,7 +517,15 @@ impl C02 {
             }
             (Ok(m), Ok(g)) => {
                 let tol = if has_pow { mv::Tol::Loose } else { mv::Tol::Exact };
-                if !mv::same(m, g, tol) {
+                // x^y by repeated multiplication or exp/log: the relative error grows with |y|
+                let pow_ok = has_pow && m.ty() == g.ty() && match (m.as_f64(), g.as_f64()) {
+                    (Some(a), Some(b)) => {
+                        let base = if matches!(m, V::D(_)) { 1e-11 } else { 1e-5 };
+                        a == b || (a - b).abs() <= base * (1.0 + pow_exponent(&x).abs() / 8.0) * a.abs().max(b.abs())
+                    }
+                    _ => false,
+                };
+                if !pow_ok && !mv::same(m, g, tol) {
                     ctx.violation(
                         "wrong-value",
                         &format!("expr:value:{}", top_op(&x)),
@@ -586,7 +594,7 @@ impl C02 {
                     let got = got.unwrap_or_else(|| V::zero(ty));
                     // a Single computed by `^` and widened to Double carries Single precision
                     let close = match (w.as_f64(), got.as_f64()) {
-                        (Some(a), Some(b)) if has_pow => a == b || (a - b).abs() <= 1e-5 * a.abs().max(b.abs()),
+                        (Some(a), Some(b)) if has_pow => a == b || (a - b).abs() <= 1e-5 * (1.0 + pow_exponent(&x).abs() / 8.0) * a.abs().max(b.abs()),
                         _ => mv::same(w, &got, mv::Tol::Exact),
                     };
                     if got.ty() != ty || !close {
@@ -619,6 +627,16 @@ impl C02 {
             }
         }
     }
+}
+
+/// The (model) value of the exponent when the root of the tree is `^`, else 0.
+fn pow_exponent(x: &X) -> f64 {
+    if let X::Bin(_, BinOp::Pow, r) = x {
+        if let (Ok(v), _) = model_eval(r) {
+            return v.as_f64().unwrap_or(0.0);
+        }
+    }
+    0.0
 }
 
 fn top_op(x: &X) -> String {
